@@ -217,7 +217,12 @@ class Sector(EconomicObject):
         term = term_obj.Term
         if term in self.GetVariables():
             rhs = self.EquationBlock[term].RHS()
-            if rhs == '' or rhs == '0.0':
+            try:
+                # Any spelling of zero ('0.0', '0.', '0') counts as undefined.
+                is_zero = float(rhs) == 0.
+            except ValueError:
+                is_zero = False
+            if rhs == '' or is_zero:
                 self.SetEquationRightHandSide(term, eqn)
         else:
             self.AddVariable(term, desc, eqn)
